@@ -145,6 +145,7 @@ fn run(w: &str) -> i32 {
         "oneway-noop" => oneway_w::run_noop(w),
         "oneway-plan" => oneway_w::run_plan(w),
         "oneway-dry" => oneway_w::run_dry(w),
+        "pair-small" => engine_w::run_pair_small(w),
         "bisync" => bisync_w::run_w(w),
         "bisync-trace" => bisync_w::run_trace(w),
         "bisync-crash" => bisync_w::run_crash(w),
